@@ -183,6 +183,9 @@ func (s *summary) bad(why, shape string, raw []byte, observed any, confirmed boo
 	s.MismatchCount++
 	s.ShapeCounts[shape]++
 	if s.ShapeCounts[shape] <= 5 && len(s.Mismatches) < 200 {
+		if _, err := json.Marshal(observed); err != nil {
+			observed = fmt.Sprintf("%+v", observed) // values JSON cannot carry (an infinite or NaN float in a result)
+		}
 		s.Mismatches = append(s.Mismatches, mismatch{why, shape, json.RawMessage(append([]byte{}, raw...)), observed, confirmed})
 	}
 }
